@@ -341,6 +341,28 @@ func sysGen(r *rand.Rand, thorough bool) dbCase {
 		c.Sessions = append(c.Sessions, dbSession{Opts: opts, Clients: [][]dbOp{genProgram(r, nkeys, nops, 10, 20)}, Knobs: knobs})
 	}
 	c.Recovery = genOpts(r)
+	if r.Intn(6) == 0 {
+		// tables larger than the 4 MiB read buffer of the compaction's input scanners, so that an input iterator can
+		// fail in the middle of a merge (with smaller tables the whole file is buffered by the first read)
+		opts := genOpts(r)
+		opts.Memstore = 5 << 20
+		opts.Threshold = 1
+		opts.MaxSize = 5 << 30
+		opts.Ratio = 1
+		opts.Compactions = true
+		opts.WriteBuf = 4 << 20
+		opts.ReadBuf = 4 << 20
+		var prog []dbOp
+		n := 16 + r.Intn(8)
+		c.Keys = genKeys(r, 24) // (nearly) every value lives in exactly one table: a merge that loses records loses data
+		for i := 0; i < n; i++ {
+			prog = append(prog, dbOp{Kind: "put", Key: (i * 7) % 24, ValLen: 700_000 + r.Intn(100_000)})
+		}
+		knobs := genKnobs(r)
+		knobs.Advance = 4
+		c.Sessions = []dbSession{{Opts: opts, Clients: [][]dbOp{prog}, Knobs: knobs}}
+		c.Recovery.ReadBuf = 4 << 20
+	}
 	return c
 }
 
